@@ -152,6 +152,13 @@ def arc_moved_out_of_self(v):
         a = v[3][-1]
         if a[0] in ('ref', 'rawptr') and a[1][0] == 'pfield' and a[1][2] == 'internal' and mentions_self(a):
             return True
+        # `ptr::read(&*handle as *const A as *const Internal<T>)`: the handle is its single field (layout: the repr check of L4)
+        while a[0] == 'cast' and a[1] == 'PtrToPtr':
+            a = a[2]
+        if a[0] in ('ref', 'rawptr') and mentions_self(a) and not (a[1][0] == 'pfield'):
+            return True
+        if a[0] == 'call' and a[2] in ('std::ops::Deref::deref', 'std::ops::DerefMut::deref_mut') and mentions_self(a):
+            return True  # `&*manually_drop_handle`
     return False
 
 
